@@ -327,3 +327,9 @@ package cisco
 // position bookkeeping without a command (structural guard).
 //vc:func (*State).diffASAACLs
 //vc:  assert[C01] at "delete(delMap, p)" @deviceLineMovedOnce a != nil
+
+// C07 (ASA): every access-group of an interface unknown to Netspoc is recorded
+// (appended, not overwritten; also lines with a trailing option), so that
+// markNeeded protects all ACLs of that interface (structural guard).
+//vc:func (*State).checkASAInterfaces$1
+//vc:  assert[C07] at "m[tokens[4]] = append(m[tokens[4]], c)" @everyAccessGroupRecorded len(tokens) >= 5 && tokens[3] == "interface"
